@@ -26,6 +26,7 @@ SeqSel = TSeq(Sel)
 from pyvc.types import TTup as _TTup   # noqa: E402
 FormCache = TSeq(_TTup(Node, Node))
 LangCache = TSeq(_TTup(Node, TOpt(STR)))
+IndetCache = TSeq(_TTup(Node, OptAttrVal, BOOL))
 SeqInt = TSeq(INT)
 SeqSelAttr = TSeq(SelAttr)
 SeqSelLang = TSeq(SelLang)
@@ -207,11 +208,6 @@ def all_nth(m: M, ns: NsMap, ifr: bool, el: Node, nth: SeqSelNth, i: int) -> boo
 
 def sem_nth(m: M, ns: NsMap, ifr: bool, el: Node, nth: SeqSelNth) -> bool:
     return all_nth(m, ns, ifr, el, nth, 0)
-
-
-@abstract
-def sem_indeterminate(m: M, el: Node) -> bool:
-    return _ref.sem_indeterminate(m, el)
 
 
 @abstract
@@ -887,13 +883,6 @@ def default_cache_ok(m: M, cache: FormCache, i: int) -> bool:
             default_cache_ok(m, cache, i + 1))
 
 
-@abstract
-def indet_cache_rest(m: M, cache: SeqInt) -> bool:
-    return True
-
-
-def indet_cache_ok(m: M, cache: SeqInt) -> bool:
-    return len(cache) == 0 or indet_cache_rest(m, cache)
 
 
 # ---------------------------------------------------------------------------------------------- :lang() (C13)
@@ -1024,3 +1013,64 @@ def lang_cache_ok(m: M, cache: LangCache, i: int) -> bool:
         return True
     return (cache[i][0] is not None and meta_applies(m, cache[i][0]) and cache[i][1] == meta_lang(m, cache[i][0]) and
             lang_cache_ok(m, cache, i + 1))
+
+
+# ---------------------------------------------------------------------------------------------- :indeterminate radio groups (C17)
+
+def scope_up(m: M, p: Node) -> Node:
+    """Owner of a radio group seen from ancestor p: the nearest HTML form element, else the topmost ancestor in the same document."""
+    if p is None:
+        return None
+    if is_form_el(m, p):
+        return p
+    if parent_of(m, p, True) is None:
+        return p
+    return scope_up(m, parent_of(m, p, True))
+
+
+def group_scope(m: M, el: Node) -> Node:
+    return scope_up(m, parent_of(m, el, True))
+
+
+def radio_scan(m: M, seq: SeqAttr, i: int, nm: OptAttrVal, is_radio: bool, check: bool, has_name: bool, same_form: bool) -> bool:
+    """Reading the attributes from position i on (flags so far): the element is a checked radio button called nm of that form.
+    Attribute names compare exactly in XML documents, ASCII case-insensitively otherwise (C11)."""
+    if i < 0 or i >= len(seq):
+        return False
+    k = seq[i][0] if m.is_xml else ascii_lower(seq[i][0])
+    r = is_radio or (k == 'type' and ascii_lower(as_str(seq[i][1])) == 'radio')
+    n = has_name or (k == 'name' and seq[i][1] == nm)
+    c = check or k == 'checked'
+    if r and c and n and same_form:
+        return True
+    return radio_scan(m, seq, i + 1, nm, r, c, n, same_form)
+
+
+@named
+def checked_member(m: M, c: Node, nm: OptAttrVal, scope: Node) -> bool:
+    """c is a checked radio button called nm in the group owned by scope."""
+    return tag_name(m, c) == 'input' and radio_scan(m, npairs(c), 0, nm, False, False, False, same(group_scope(m, c), scope))
+
+
+def group_checked(m: M, scope: Node, nm: OptAttrVal, seq: SeqNode, i: int, ex: Node) -> bool:
+    """Some element other than ex among seq[i:] is a checked member of the group."""
+    if i < 0 or i >= len(seq):
+        return False
+    if seq[i] is not None and not same(seq[i], ex) and checked_member(m, seq[i], nm, scope):
+        return True
+    return group_checked(m, scope, nm, seq, i + 1, ex)
+
+
+def sem_indeterminate(m: M, el: Node) -> bool:
+    """A named radio button is indeterminate when no radio button of its group (same name, same form owner) is checked."""
+    f = group_scope(m, el)
+    return f is not None and not group_checked(m, f, attr_by_name(el, 'name', None), desc_spec(m, f, True, True), 0, None)
+
+
+def indet_cache_ok(m: M, cache: IndetCache, i: int) -> bool:
+    """Every memoised (owner, name, verdict) triple from position i on is right, whichever element asked."""
+    if i < 0 or i >= len(cache):
+        return True
+    return (cache[i][0] is not None and
+            cache[i][2] == (not group_checked(m, cache[i][0], cache[i][1], desc_spec(m, cache[i][0], True, True), 0, None)) and
+            indet_cache_ok(m, cache, i + 1))
